@@ -197,6 +197,16 @@ fn mixes() -> Vec<Mix> {
         Mix { hostile: true, partial: false, name: "XO+SI rejected calls, subnormal signal".to_string(), cfgs: vec![Cfg::fft(Kind::XO, 2, 3, 48, 2).with_channels(2), si.clone()] },
         Mix { hostile: false, partial: false, name: "FO+FO ratios 3e-5 apart".to_string(), cfgs: vec![fo.clone(), { let mut c = fo.clone(); c.ratio += 3.0e-5; c }] },
     ];
+    // FFT lengths that divide each other (a planner shared between instances serves parts of
+    // the longer transform from what it planned for the shorter one): smooth lengths n and k*n
+    for n in [96usize, 108, 144, 216, 240, 288, 360, 540, 756, 1152, 1440] {
+        for k in [2usize, 3, 4, 5, 6, 8] {
+            if n * k > 6000 {
+                continue;
+            }
+            v.push(Mix { hostile: false, partial: false, name: format!("pool fft XX 2->1 block {} + block {}", n, n * k), cfgs: vec![Cfg::fft(Kind::XX, 2, 1, n, 1), Cfg::fft(Kind::XX, 2, 1, n * k, 1)] });
+        }
+    }
     v.extend(pool_pairs());
     v
 }
